@@ -6,6 +6,15 @@
 (*   Eq     {a, b, got}               Equal / Equivalent / map key               *)
 (*   Detect {base, ds, got}           New / Detect with scripted detectors       *)
 (*   Env    {s, svc, got}             OTEL_RESOURCE_ATTRIBUTES / OTEL_SERVICE_NAME*)
+(*   New    {base, ds, scr, got}      New(ctx, opts...) over the built-in options; *)
+(*                                    ds = every detector-contributing option as   *)
+(*                                    observed STANDALONE (New(ctx, thatOption)),  *)
+(*                                    scr = the scripted ones (error identity)     *)
+(*   Default {xon, svcK, sidK, envobs, sdkobs, got}   resource.Default() in a fresh *)
+(*                                    process; envobs / sdkobs = the environment   *)
+(*                                    and telemetry-SDK layers observed standalone *)
+(*                                    in the same process; generated defaults are  *)
+(*                                    projected onto the tag "gen"                 *)
 (* Keys and values are opaque ASCII tokens of the concrete keys / typed values. *)
 EXTENDS ResModel, EnvModel, TraceKit
 
@@ -69,6 +78,26 @@ DetectWhy(e) ==
   ELSE IF g.errNil # m.errNil THEN "err-nil"
   ELSE ""
 
+(* ---- New: the composite equals the model's fold of the standalone observations *)
+NewWhy(e) ==
+  LET m == DetectOut(e.base, DetDs(e))  g == e.got IN
+  IF ~SameMap(g.attrs, m.attrs) THEN "attrs"
+  ELSE IF g.schema # m.schema THEN "schema"
+  ELSE IF g.conflict # m.conflict THEN "conflict-error"
+  ELSE IF g.partial # (m.partials # {}) THEN "partial-error"
+  ELSE IF Range(g.fails) # (m.fails \cap Range(e.scr)) THEN "fail-error-wrapping"
+  ELSE IF g.errNil # m.errNil THEN "err-nil"
+  ELSE ""
+
+(* ---- Default: defaults < observed environment layer < observed telemetry-SDK layer *)
+DetOf(j) == [res |-> ToRes(j.res), out |-> j.out]
+DefaultWant(e) == DefaultOut(e.xon, e.svcK, e.sidK, e.sdkobs.res.schema, DetOf(e.envobs), DetOf(e.sdkobs))
+DefaultWhy(e) ==
+  LET m == DefaultWant(e)  g == e.got IN
+  IF ~SameMap(g.attrs, m.attrs) THEN "attrs"
+  ELSE IF g.schema # m.schema THEN "schema"
+  ELSE ""
+
 (* ---- Env *)
 EnvGot(e) == [attrs |-> Range(e.got.attrs), err |-> e.got.err]
 EnvWhy(e) ==
@@ -82,12 +111,16 @@ Why(e) == CASE e.ev = "Tuple"  -> TupleWhy(e)
             [] e.ev = "Eq"     -> EqWhy(e)
             [] e.ev = "Detect" -> DetectWhy(e)
             [] e.ev = "Env"    -> EnvWhy(e)
+            [] e.ev = "New"    -> NewWhy(e)
+            [] e.ev = "Default" -> DefaultWhy(e)
 
 Want(e) == CASE e.ev = "Tuple"  -> TupleOut(TupleXs(e))
              [] e.ev = "List"   -> [adm |-> FromListAdm(e.list)]
              [] e.ev = "Eq"     -> [same |-> SameAttrs(ToRes(e.a), ToRes(e.b))]
              [] e.ev = "Detect" -> DetectOut(e.base, DetDs(e))
              [] e.ev = "Env"    -> [adm |-> Adm(e.s, e.svc)]
+             [] e.ev = "New"    -> DetectOut(e.base, DetDs(e))
+             [] e.ev = "Default" -> DefaultWant(e)
 
 Init == l = 1 /\ nbad = 0
 Step == /\ l <= Len(Trace)
@@ -106,5 +139,6 @@ Inv == l > 1 =>
            [] e.ev = "List"   -> ListLaw(e.list)
            [] e.ev = "Detect" -> DetectLaw(e.base, DetDs(e))
            [] e.ev = "Env"    -> EnvLaw(e.s, e.svc)
+           [] e.ev = "New"    -> DetectLaw(e.base, DetDs(e))
            [] OTHER           -> TRUE
 =============================================================================
